@@ -164,7 +164,7 @@ def VIOL_KEY(cfg):
 
 def jobs(tier, seed):
     js = []
-    shapes = [[1], [2], [1, 1]] if tier == 'quick' else [[1], [2], [1, 1], [2, 1], [3]]
+    shapes = [[1], [2], [1, 1]] if tier == 'quick' else [[1], [2], [1, 1], [2, 1], [3], [2, 2], [1, 1, 1]]
     for procs in shapes:
         for factor in ('1/2', '1', '2'):
             for strict in (True, False):
